@@ -77,19 +77,10 @@ func (cj *CookieJar) getByHostAndPath(host, path []byte) []*fasthttp.Cookie {
 		return nil
 	}
 
-	var (
-		err     error
-		cookies []*fasthttp.Cookie
-		hostStr = utils.UnsafeString(host)
-	)
-
 	// port must not be included.
-	hostStr, _, err = net.SplitHostPort(hostStr)
-	if err != nil {
-		hostStr = utils.UnsafeString(host)
-	}
+	hostStr := utils.UnsafeString(hostWithoutPort(host))
 	// get cookies deleting expired ones
-	cookies = cj.cookiesByHost(hostStr)
+	cookies := cj.cookiesByHost(hostStr)
 
 	newCookies := make([]*fasthttp.Cookie, 0, len(cookies))
 	for i := 0; i < len(cookies); i++ {
@@ -296,6 +287,10 @@ func maxAgeAttribute(setCookie []byte) (int64, bool) {
 func hostWithoutPort(host []byte) []byte {
 	if h, _, err := net.SplitHostPort(utils.UnsafeString(host)); err == nil {
 		return utils.UnsafeBytes(h)
+	}
+	// An IPv6 literal without a port gets the key it has with one ("[::1]:80" is split into "::1").
+	if n := len(host); n > 2 && host[0] == '[' && host[n-1] == ']' {
+		return host[1 : n-1]
 	}
 	return host
 }
